@@ -38,6 +38,25 @@ class Oracle:
         self.causes = set()
         self.nv_cache = {}
 
+    def reported(self, ctx):
+        """(account net value as the broker reports it, slack for the implementation's own rounding) or (None, 0) if it cannot be evaluated"""
+        from mc.checks.c01 import tolerance
+
+        try:
+            nv = F(ctx.impl_net_value())
+        except Exception:  # noqa: BLE001  a state in which the report itself fails is C01 / C13 territory
+            return None, Fraction(0)
+        row = ctx.price_row()
+        slack = Fraction(0)
+        for a in ctx.adapters:
+            q = a.market.quote_token
+            conv = F(row[q.name]) if q != ctx.broker.quote_token else Fraction(1)
+            t = tolerance(a, a.ref_value())
+            if a.kind == "squeeth":
+                t += tolerance(a.ua, Fraction(0))
+            slack += t * conv
+        return nv, slack
+
     def on_state(self, ctx, hist):
         self.part.count("states_visited")
         neg = ctx.negatives()
@@ -52,10 +71,12 @@ class Oracle:
         part.count("accepted" if out.ok else "rejected")
         row = ctx.price_row()
         post_nv = ctx.ref_net_value()
+        post_reported, post_slack = self.reported(ctx)
         # pre-state net value: recompute from the snapshot (restore, value, come back)
         post_snap = ctx.snapshot()
         ctx.restore(snap)
         pre_nv = ctx.ref_net_value()
+        pre_reported, pre_slack = self.reported(ctx)
         pre_wallet = ctx.wallet()
         slack_extra = self.world.allowed_gain(ctx, op) if hasattr(self.world, "allowed_gain") else Fraction(0)
         ctx.restore(post_snap)
@@ -86,7 +107,14 @@ class Oracle:
             if fee_v is not None and abs(delta + fee_v) > tol + REL * abs(fee_v):
                 part.violation(f"C03|{op.kind}|swap-fee", f"{op.kind} changes net value by something else than minus the reported fee",
                                case, {"delta": float(delta), "fee_value": float(fee_v), "label": op.label})
-        # the account's own figure must move the same way (a valuation bug must not mask a conservation bug)
+        # the account's OWN figure (Broker.get_account_status, with whatever the markets cache) must not show created value either
+        if post_reported is not None and pre_reported is not None:
+            part.count("reported_value_checks")
+            d_rep = post_reported - pre_reported
+            if d_rep > tol + extra + pre_slack + post_slack:
+                part.violation(f"C03|{op.kind}|reported-value-created|{status}",
+                               f"{op.kind} ({status}) raised the account's reported net value by more than wallet dust (the raw holdings did not gain it)", case,
+                               {"reported_delta": float(d_rep), "reference_delta": float(delta), "dust": float(dust), "label": op.label})
         neg = ctx.negatives()
         if neg:
             part.violation(f"C03|{op.kind}|negative|{status}",
